@@ -3,15 +3,7 @@ import GolibsVerif.Lemmas.TmoPool
 C13 — Timers: every live future fires; the pool adapts and winds down.
 `c : Cfg` arbitrary with maxWorkers ≥ 1; any arrival pattern (add / cancel at any time), any
 interleaving of watcher iterations, timer and token wake-ups, and time passing.
-
-`someone_responsible` and `no_stuck_state` as originally stated are FALSE for the model (see
-`someone_responsible_refuted`, `no_stuck_state_refuted`; run in Lemmas/TmoPoolCex.lean): a watcher that
-sleeps until exactly the head's fire time wakes when `now = fireT`, finds the head "not due"
-(`now.After(fireT)` is strict) and, with `mis > 1` and `watchers > 1`, exits, leaving only
-idle-capped sleepers whose deadlines lie after the fire time.  What does hold
-(`someone_responsible_partial`): strictly before the head's fire time somebody is always
-responsible; from the fire time on, at worst an idle-capped sleeper wakes within `idle` (and no
-later than `fireT + idle`).
+Model of the REPAIRED timeout.go (a head future is due when `!now.Before(fireT)`, i.e. fireT ≤ now).
 -/
 namespace C13
 open Tmo.Pool
@@ -22,112 +14,35 @@ theorem watchers_exact (c : Cfg) (hm : 1 ≤ c.maxWorkers) (s : St) (h : Reach c
   have hI := Inv.reach hm h
   ⟨hI.wl, hI.tok, hI.wmax⟩
 
-/-- C13.someone_responsible as originally stated: whenever a future is pending, some live watcher is
-awake, or sleeps no longer than until the earliest fire time, or a wake token is waiting for a
-sleeping watcher.  REFUTED below. -/
-def someone_responsible_full : Prop :=
-  ∀ (c : Cfg) (_hm : 1 ≤ c.maxWorkers) (s : St) (_h : Reach c s) (id fireT : Nat)
-    (_hh : headOf s.heap = some (id, fireT)),
-    (∃ p ∈ s.threads, Responsible s fireT p) ∨
-    (0 < s.tokens ∧ ∃ d mis cp, WPc.sleeping d mis cp ∈ s.threads)
-
-theorem someone_responsible_refuted : ¬ someone_responsible_full := by
-  intro hf
-  have := hf cexCfg (by decide) cexState cex_reach 2 1 (by decide)
-  simp [cexState, Responsible] at this
-
-/-- C13.someone_responsible, the part that holds: a pending head future has a responsible watcher or
-a token waiting for a sleeper — except possibly once its fire time has been reached
-(`fireT ≤ now`), when the guarantee degrades to: some idle-capped sleeper wakes within `idle`
-from now and no later than `idle` after the fire time. -/
-theorem someone_responsible_partial (c : Cfg) (hm : 1 ≤ c.maxWorkers) (s : St) (h : Reach c s) (id fireT : Nat)
+/-- C13.someone_responsible: whenever a future is pending, some live watcher is awake, or sleeps no
+longer than until the earliest fire time, or a wake token is waiting for a sleeping watcher. -/
+theorem someone_responsible (c : Cfg) (hm : 1 ≤ c.maxWorkers) (s : St) (h : Reach c s) (id fireT : Nat)
     (hh : headOf s.heap = some (id, fireT)) :
     (∃ p ∈ s.threads, Responsible s fireT p) ∨
-    (0 < s.tokens ∧ ∃ d mis cp, WPc.sleeping d mis cp ∈ s.threads) ∨
-    (fireT ≤ s.now ∧ ∃ d mis, WPc.sleeping d mis true ∈ s.threads ∧ d ≤ s.now + c.idle ∧ d ≤ fireT + c.idle) := by
-  have hI := Inv.reach hm h
-  have hL := Late.reach hm h
-  have hw := hI.ne id fireT hh
-  rw [hI.wl] at hw
-  obtain ⟨j, p, hj, hp⟩ := exists_live_of_pos hw
-  have hmem := List.mem_of_getElem? hj
-  cases p with
-  | top f mis => exact Or.inl ⟨_, hmem, trivial⟩
-  | exited => exact absurd rfl hp
-  | sleeping d m cp =>
-    by_cases ht : 0 < s.tokens
-    · exact Or.inr (Or.inl ⟨ht, d, m, cp, hmem⟩)
-    · have ht0 : s.tokens = 0 := by omega
-      by_cases hnow : s.now < fireT
-      · rcases hI.key id fireT hh ht0 hnow with h1 | ⟨j', p', hj', hs⟩ | ⟨j', m', cp', hj'⟩
-        · exact Or.inl ⟨_, hmem, h1 j d m cp hj⟩
-        · have hmem' := List.mem_of_getElem? hj'
-          cases p' with
-          | top f mis => exact Or.inl ⟨_, hmem', trivial⟩
-          | sleeping _ _ _ => exact hs.elim
-          | exited => exact hs.elim
-        · exact Or.inl ⟨_, List.mem_of_getElem? hj', Nat.le_refl _⟩
-      · cases cp with
-        | true =>
-          by_cases hx : ∃ (j : Nat) (g : Option Nat) (mis : Nat), s.threads[j]? = some (WPc.top g mis)
-          · obtain ⟨j', g, mis, hj'⟩ := hx
-            exact Or.inl ⟨_, List.mem_of_getElem? hj', trivial⟩
-          · have hnt : NoTop s := fun j' g mis hj' => hx ⟨j', g, mis, hj'⟩
-            exact Or.inr (Or.inr ⟨by omega, d, m, hmem, hI.cap j d m hj, hL id fireT hh ht0 hnt j d m hj⟩)
-        | false =>
-          rcases hI.uncd j d m hj with h0 | h2
-          · exact absurd h0 ht
-          · exact Or.inl ⟨_, hmem, h2 id fireT hh⟩
-
-/-- corollary: strictly before the earliest fire time the original statement holds -/
-theorem someone_responsible_before_due (c : Cfg) (hm : 1 ≤ c.maxWorkers) (s : St) (h : Reach c s) (id fireT : Nat)
-    (hh : headOf s.heap = some (id, fireT)) (hb : s.now < fireT) :
-    (∃ p ∈ s.threads, Responsible s fireT p) ∨
     (0 < s.tokens ∧ ∃ d mis cp, WPc.sleeping d mis cp ∈ s.threads) := by
-  rcases someone_responsible_partial c hm s h id fireT hh with h1 | h2 | ⟨h3, _⟩
-  · exact Or.inl h1
-  · exact Or.inr h2
-  · omega
+  rcases (Inv.reach hm h).responsible hh with ⟨j, p, hj, hr⟩ | ⟨ht, j, d, m, cp, hj⟩
+  · exact Or.inl ⟨p, List.mem_of_getElem? hj, hr⟩
+  · exact Or.inr ⟨ht, d, m, cp, List.mem_of_getElem? hj⟩
 
-/-- C13.no_stuck_state as originally stated: if the earliest pending future is due, some watcher step
-is enabled that is not a mere sleep.  REFUTED below. -/
-def no_stuck_state_full : Prop :=
-  ∀ (c : Cfg) (_hm : 1 ≤ c.maxWorkers) (s : St) (_h : Reach c s) (id fireT : Nat)
-    (_hh : headOf s.heap = some (id, fireT)) (_hdue : fireT < s.now),
+/-- C13.no_stuck_state: if the earliest pending future is due, some watcher step is enabled that is
+not a mere sleep: an awake watcher runs its section, or a sleeper's timer has run out, or a token
+waits for a sleeper. -/
+theorem no_stuck_state (c : Cfg) (hm : 1 ≤ c.maxWorkers) (s : St) (h : Reach c s) (id fireT : Nat)
+    (hh : headOf s.heap = some (id, fireT)) (hdue : fireT ≤ s.now) :
     (∃ (i : Nat) (f : Option Nat) (mis : Nat), s.threads[i]? = some (WPc.top f mis)) ∨
-    (∃ (i : Nat) (d : Nat) (mis : Nat) (cp : Bool), s.threads[i]? = some (WPc.sleeping d mis cp) ∧ (d ≤ s.now ∨ 0 < s.tokens))
+    (∃ (i : Nat) (d : Nat) (mis : Nat) (cp : Bool), s.threads[i]? = some (WPc.sleeping d mis cp) ∧ (d ≤ s.now ∨ 0 < s.tokens)) :=
+  (Inv.reach hm h).not_stuck hh hdue
 
-theorem no_stuck_state_refuted : ¬ no_stuck_state_full := by
-  intro hf
-  rcases hf cexCfg (by decide) cexState2 cex_reach2 2 1 (by decide) (by decide) with ⟨i, f, mis, hi⟩ | ⟨i, d, mis, cp, hi, hd⟩
-  · have hmem := List.mem_of_getElem? hi
-    simp [cexState2, cexState] at hmem
-  · have hmem := List.mem_of_getElem? hi
-    simp [cexState2, cexState] at hmem
-    obtain ⟨rfl, _, _⟩ := hmem
-    simp [cexState2, cexState] at hd
-
-/-- C13.no_stuck_state, the part that holds: if the earliest pending future is due, then now (`k = 0`)
-or after `k ≤ idle` further ticks (and no other step), at a time no later than `fireT + idle`, some
-watcher step other than sleeping on is enabled — the future can be late by up to the idle timeout,
-but it cannot be forgotten. -/
-theorem no_stuck_state_partial (c : Cfg) (hm : 1 ≤ c.maxWorkers) (s : St) (h : Reach c s) (id fireT : Nat)
-    (hh : headOf s.heap = some (id, fireT)) (hdue : fireT < s.now) :
-    ∃ k, k ≤ c.idle ∧ (k = 0 ∨ s.now + k ≤ fireT + c.idle) ∧
-    ((∃ (i : Nat) (f : Option Nat) (mis : Nat), s.threads[i]? = some (WPc.top f mis)) ∨
-     (∃ (i : Nat) (d : Nat) (mis : Nat) (cp : Bool), s.threads[i]? = some (WPc.sleeping d mis cp) ∧ (d ≤ s.now + k ∨ 0 < s.tokens))) := by
-  rcases someone_responsible_partial c hm s h id fireT hh with ⟨p, hp, hr⟩ | ⟨ht, d, mis, cp, hp⟩ | ⟨_, d, mis, hp, hd, hd2⟩
-  · obtain ⟨i, hi⟩ := List.getElem?_of_mem hp
-    cases p with
-    | top f mis => exact ⟨0, Nat.zero_le _, Or.inl rfl, Or.inl ⟨i, f, mis, hi⟩⟩
-    | sleeping d mis cp =>
-      have hr' : d ≤ fireT := hr
-      exact ⟨0, Nat.zero_le _, Or.inl rfl, Or.inr ⟨i, d, mis, cp, hi, Or.inl (by omega)⟩⟩
-    | exited => exact hr.elim
-  · obtain ⟨i, hi⟩ := List.getElem?_of_mem hp
-    exact ⟨0, Nat.zero_le _, Or.inl rfl, Or.inr ⟨i, d, mis, cp, hi, Or.inr ht⟩⟩
-  · obtain ⟨i, hi⟩ := List.getElem?_of_mem hp
-    exact ⟨d - s.now, by omega, by omega, Or.inr ⟨i, d, mis, true, hi, Or.inl (by omega)⟩⟩
+/-- C13.due_is_popped: an awake watcher that finds the head due pops it (it does not exit or sleep) -/
+theorem due_is_popped (c : Cfg) (s : St) (i mis id fireT : Nat) (f : Option Nat)
+    (h : s.threads[i]? = some (WPc.top f mis)) (hh : headOf s.heap = some (id, fireT)) (hd : fireT ≤ s.now) :
+    ∃ t, Step c s t ∧ (∃ mis', t.threads[i]? = some (WPc.top (some id) mis')) ∧ t.heap = s.heap.filter (·.1 != id) := by
+  have e1 : (ranCb s f).heap = s.heap := by cases f <;> rfl
+  have e2 : (ranCb s f).now = s.now := by cases f <;> rfl
+  have e4 : (ranCb s f).threads = s.threads := by cases f <;> rfl
+  have hd' := secT_due c (ranCb s f) i (misNext f mis) id fireT (e4 ▸ h) (e1 ▸ hh) (e2 ▸ hd)
+  exact ⟨secT c (ranCb s f) i (misNext f mis), step_section c s i f mis h,
+    ⟨misNext f mis, hd'.1⟩, e1 ▸ hd'.2⟩
 
 /-- C13.never_early + started only once, at pool level: a callback is started only after it was
 popped when due, and every started id was pending before -/
@@ -176,7 +91,7 @@ theorem restart (c : Cfg) (s : St) (fireT : Nat) (hw : s.watchers = 0) :
 /-- C13.burst_spawns: a watcher that pops a due future while another one is already due and the pool
 is below its limit starts one more watcher -/
 theorem burst_spawns (c : Cfg) (s : St) (i mis id fireT id2 t2 : Nat) (f : Option Nat)
-    (h : s.threads[i]? = some (WPc.top f mis)) (hh : headOf s.heap = some (id, fireT)) (hd : fireT < s.now)
+    (h : s.threads[i]? = some (WPc.top f mis)) (hh : headOf s.heap = some (id, fireT)) (hd : fireT ≤ s.now)
     (h2 : headOf (s.heap.filter (·.1 != id)) = some (id2, t2)) (hd2 : t2 < s.now) (hw : s.watchers < c.maxWorkers) :
     ∃ t, Step c s t ∧ t.watchers = s.watchers + 1 ∧ t.threads.length = s.threads.length + 1 := by
   refine ⟨secT c (ranCb s f) i (misNext f mis), step_section c s i f mis h, ?_⟩
